@@ -1483,6 +1483,21 @@ def check_C06(ctx):
                                'explanation': 'the scanner reads outside [first byte, terminator]' if beyond(a) else
                                'the scanner reads further than the access model says (or returns another code): the index-level model no longer bounds what the code reads, so its no-out-of-range-read theorems no longer cover it'},
                               found_input=beyond(a))
+    # (f) bounded model checking of the C sources themselves (cbmc): every string of at most N bytes, every byte value, every end pointer
+    import cbmc_c06
+    if not os.environ.get('VERIF_NO_CBMC'):
+        res = cbmc_c06.run(os.path.join(ctx.snap.root, 'cbmc'), ctx.snap.src, ctx.thorough())
+        for cfg, status, detail, secs, cmd in res:
+            kind, fn, n, files, whole = cfg
+            ctx.rep.gens.append({'generator': 'cbmc(%s, all strings of at most %d bytes%s)' % (fn, n, ', end = terminator' if whole else ', every end pointer'), 'cases': 1, 'exhaustive': True,
+                                 'note': '%s in %.0f s: %s' % (status, secs, detail if isinstance(detail, str) else 'counterexample')})
+            if status == 'failed':
+                ctx.rep.violation({'kind': 'cbmc', 'function': fn, 'bound': n, 'detail': detail, 'command': ' '.join(cmd),
+                                   'explanation': 'cbmc found a string of at most %d bytes on which %s violates a pointer / bounds / overflow / unwinding / leak assertion; the assignments give the input' % (n, fn)})
+            elif status in ('error', 'timeout'):
+                ctx.rep.violation({'kind': 'cbmc', 'function': fn, 'bound': n, 'status': status, 'detail': detail, 'command': ' '.join(cmd),
+                                   'explanation': 'cbmc could not complete on the current sources (%s): the bounded exploration of %s is not available' % (status, fn)}, found_input=False)
+        ctx.rep.notes.append('cbmc 6.11 bounded runs: ' + '; '.join('%s N=%d %s %.0fs' % (c[1], c[2], st, sec) for c, st, d, sec, cmd in res))
     # (d) linear work: instruction counts (callgrind) on adversarial shapes at n, 2n, 4n
     import subprocess
     shapes = {'all-dots': lambda n: b'.' * n, 'all-at': lambda n: b'@' * n, 'long-local': lambda n: b'a' * n + b'@b.com', 'many-labels': lambda n: b'a@' + b'b.' * (n // 2) + b'c',
@@ -1509,7 +1524,7 @@ def check_C06(ctx):
     return finish(ctx, rule='every generated case runs (a) on an ASan+UBSan+LSan build with the input in an exact-size heap block, (b) on the default build with PROT_NONE pages right after the terminator '
                   'and right before the first byte, (c) under valgrind memcheck with eav_t on uninitialised heap memory, and (d) callgrind instruction counts at n/2n/4n for adversarial shapes; '
                   'outputs are also compared with the model; a crash / sanitizer stop is a concrete failing input',
-                  extra_trusted=['gcc ASan/UBSan/LSan, valgrind 3.19 memcheck and callgrind', 'partial: compiler-level UB that sanitizers do not see, libc/libidn2 internals, inputs >= 2 GiB are outside what is shown'],
+                  extra_trusted=['gcc ASan/UBSan/LSan, valgrind 3.19 memcheck and callgrind', 'cbmc 6.11 (bounded model checking of the C sources: supports the tie, replaces no theorem) with harness/cbmc/libc_stub.c', 'partial: compiler-level UB that sanitizers do not see, libc/libidn2 internals, inputs >= 2 GiB are outside what is shown'],
                   extra_cov={'callgrind_instruction_counts': lin})
 
 CHECKS = {'C06': check_C06, 'C18': check_C18, 'C14': check_C14, 'C20': check_C20, 'C10': check_C10, 'C05': check_C05, 'C17': check_C17, 'C11': check_C11, 'C13': check_C13, 'C15': check_C15, 'C16': check_C16, 'C19': check_C19, 'C01': check_C01, 'C07': check_C07, 'C08': check_C08, 'C09': check_C09, 'C12': check_C12, 'C03': check_C03, 'C02': check_C02, 'C04': check_C04}
